@@ -50,6 +50,9 @@ var c10Kinds = map[string]c10Member{
 	"addlFalse": {Schema: J{"type": "object", "additionalProperties": false, "properties": J{"f1": J{"type": "string"}}}, Props: map[string]string{"f1": `"ff"`}, Addl: "false", Type: "object"},
 	"addlInt":   {Schema: J{"type": "object", "additionalProperties": J{"type": "integer"}, "properties": J{"i1": J{"type": "string"}}}, Props: map[string]string{"i1": `"ii"`}, Addl: "int", Type: "object"},
 	"untyped":   {Schema: J{"properties": J{"u1": J{"type": "string"}}}, Props: map[string]string{"u1": `"uu"`}},
+	// members that say nothing but whether additional members are allowed
+	"onlyAddlTrue":  {Schema: J{"additionalProperties": true}, Props: map[string]string{}, Addl: "true"},
+	"onlyAddlFalse": {Schema: J{"additionalProperties": false}, Props: map[string]string{}, Addl: "false"},
 	// members that must make the composition fail
 	"typeString": {Schema: J{"type": "string"}, Props: map[string]string{}, Type: "string"},
 	"fmtA":       {Schema: J{"type": "object", "format": "fa", "properties": J{"g1": J{"type": "string"}}}, Props: map[string]string{"g1": `"g"`}, Type: "object", Format: "fa"},
@@ -240,7 +243,7 @@ func jsonEqual(a, b string) bool {
 }
 
 func c10Members(r *Rng, i int) []string {
-	good := []string{"refA", "refB", "refC", "refD", "inline", "requiresA2", "nested", "sharedDup", "addlTrue", "addlFalse", "addlInt", "untyped"}
+	good := []string{"refA", "refB", "refC", "refD", "inline", "requiresA2", "nested", "sharedDup", "addlTrue", "addlFalse", "addlInt", "untyped", "onlyAddlTrue", "onlyAddlFalse"}
 	n := 1 + r.Intn(4)
 	perm := r.Perm(len(good))
 	var ms []string
